@@ -38,6 +38,114 @@ func C04(c *core.Ctx) {
 	c.Ob("R4/GetVariantsPair/aa-records-are-true-translations", len(v.badAA) == 0, funcPos(c, "pkg/variants", "getAAsPair"), "%s", first(v.badAA, 3))
 	c.Sample(map[string]string{"rule": "R3/R4", "reference": variantRef, "query": "ATGCCTAAATTA", "annotation": "geneA 1..9 (+), geneR 12..7 (-)", "specified": "nuc:C6T mentioned; no aa (CCT=P)"})
 	c04Partition(c)
+	c04Constructed(c, tabs)
+}
+
+// c04Constructed: regions as built by RegionsFromGFF / RegionsFromGenbank from each annotation layout are fed to
+// GetVariantsPair for every single-base change of the reference; the result must equal the specification computed
+// from an independent reading of the annotation (strand, joins, codon_start/phase).
+func c04Constructed(c *core.Ctx, tabs *Tables) {
+	rg := c.LookupFunc("pkg/variants", "RegionsFromGFF")
+	rb := c.LookupFunc("pkg/variants", "RegionsFromGenbank")
+	if rg == nil || rb == nil {
+		c.Und("R5/constructed-regions", token.NoPos, "UNRESOLVED region constructors")
+		return
+	}
+	var bad []string
+	n := 0
+	for _, ac := range annoCases(c) {
+		var specs []regionSpec
+		for _, f := range ac.gb {
+			if f.kind != "CDS" {
+				continue
+			}
+			ps := locPositions(f.location)
+			strand := 1
+			if len(ps) > 1 && ps[0] > ps[len(ps)-1] {
+				strand = -1
+			}
+			if f.codonStart > 1 {
+				ps = ps[f.codonStart-1:]
+			}
+			specs = append(specs, regionSpec{Name: f.gene, Positions: ps, Strand: strand})
+		}
+		for _, form := range []string{"gff", "genbank"} {
+			ev := newEval(c)
+			var rv eval.Value
+			var err error
+			if form == "gff" {
+				rv, err = ev.CallFunc(rg, mkGFF(c, ac.gff), eval.S(annoRef))
+			} else {
+				rv, err = ev.CallFunc(rb, mkGenbank(c, ac.gb, annoRef), eval.K(int64(len(annoRef))))
+			}
+			if err != nil {
+				bad = append(bad, fmt.Sprintf("%s (%s): %v", ac.name, form, err))
+				continue
+			}
+			t, ok := rv.(eval.Tuple)
+			if !ok || len(t) != 3 {
+				continue
+			}
+			if _, isErr := t[2].(eval.ErrVal); isErr {
+				bad = append(bad, fmt.Sprintf("%s (%s): the annotation is rejected", ac.name, form))
+				continue
+			}
+			step := 1
+			if c.Tier != "thorough" {
+				step = 2
+			}
+			for p := 0; p < len(annoRef); p += step {
+				for _, alt := range []byte("ACGT") {
+					if alt == annoRef[p] {
+						continue
+					}
+					q := []byte(annoRef)
+					q[p] = alt
+					n++
+					got, err := evalVariantsPairWith(c, tabs, annoRef, string(q), nil, []eval.Value{t[0], t[1]})
+					if err != nil {
+						bad = append(bad, fmt.Sprintf("%s (%s): %v", ac.name, form, err))
+						continue
+					}
+					want := specPair(annoRef, string(q), specs)
+					mention := map[string]bool{}
+					for _, x := range got.nucs {
+						mention[x] = true
+					}
+					for _, sn := range got.aaSNPs {
+						for _, m := range strings.Split(sn, ";") {
+							if m != "" {
+								mention[m] = true
+							}
+						}
+					}
+					okS := len(mention) == len(want.snps)
+					for sn := range want.snps {
+						if !mention[sn] {
+							okS = false
+						}
+					}
+					if !okS || !sameSet(got.aas, want.aaList) {
+						bad = append(bad, fmt.Sprintf("%s (%s form), %c%d%c: reported %v, specified aa %v with SNPs %v", ac.name, form, annoRef[p], p+1, alt, got.all, want.aaList, keysOf(want.snps)))
+					}
+				}
+			}
+			if len(bad) > 12 {
+				break
+			}
+		}
+	}
+	c.Count("constructed_region_pairs_evaluated", n)
+	c.Ob("R5/constructed-regions/calls-equal-annotation-semantics", len(bad) == 0, funcPos(c, "pkg/variants", "CDSRegion2fromGFF"), "%s", first(bad, 3))
+}
+
+func keysOf(m map[string]bool) []string {
+	var out []string
+	for k := range m {
+		out = append(out, k)
+	}
+	sort.Strings(out)
+	return out
 }
 
 // ---------------------------------------------------------------- position coverage of the region constructors
@@ -170,6 +278,12 @@ func annoCases(c *core.Ctx) []annoCase {
 		{name: "partial gene starting in frame 2",
 			gff: []*eval.StructVal{mkGFFFeature(c, "CDS", 3, 12, "+", 1, A("ID", "c1", "Name", "g1"))},
 			gb:  []gbFeature{{"CDS", "3..12", "g1", 2}}},
+		{name: "reverse-strand partial gene starting in frame 2",
+			gff: []*eval.StructVal{mkGFFFeature(c, "CDS", 4, 16, "-", 1, A("ID", "c1", "Name", "g1"))},
+			gb:  []gbFeature{{"CDS", "complement(4..16)", "g1", 2}}},
+		{name: "reverse joined partial gene starting in frame 3",
+			gff: []*eval.StructVal{mkGFFFeature(c, "CDS", 2, 8, "-", 0, A("ID", "c1", "Name", "g1")), mkGFFFeature(c, "CDS", 14, 20, "-", 2, A("ID", "c1", "Name", "g1"))},
+			gb:  []gbFeature{{"CDS", "complement(join(2..8,14..20))", "g1", 3}}},
 		{name: "gene plus non-CDS features",
 			gff: []*eval.StructVal{mkGFFFeature(c, "gene", 1, 24, "+", 0, A("ID", "gene1", "Name", "g1")), mkGFFFeature(c, "CDS", 4, 12, "+", 0, A("ID", "c1", "Name", "g1"))},
 			gb:  []gbFeature{{"gene", "1..24", "g1", 0}, {"CDS", "4..12", "g1", 1}}},
@@ -343,6 +457,78 @@ func C05(c *core.Ctx) {
 		}
 	}
 	c.Ob("R1/both-gap-columns-are-irrelevant", len(bad) == 0, pos, "%s", first(bad, 3))
+	// the SAM form: rows built by blockToPairwiseAlignment from one- and two-record queries, then the same caller
+	{
+		ref := "ACGTTGA"
+		var badSam []string
+		nSam := 0
+		for gi, g := range groupsFor(len(ref), false) {
+			if c.Tier != "thorough" && len(g) == 2 && gi%5 != 0 {
+				continue
+			}
+			if _, _, ok := specPairAlign(g, ref); !ok {
+				continue
+			}
+			hasIndel := false
+			for _, r := range g {
+				if strings.ContainsAny(r.Cigar, "ID") {
+					hasIndel = true
+				}
+			}
+			if !hasIndel {
+				continue
+			}
+			rr, qq, _, _, _, err := evalPairAlign(c, g, ref, false)
+			if err != nil {
+				badSam = append(badSam, fmt.Sprintf("%s: %v", recString(g), err))
+				continue
+			}
+			got, err := evalVariantsPair(c, tabs, rr, qq, nil)
+			if err != nil {
+				badSam = append(badSam, fmt.Sprintf("%s: %v", recString(g), err))
+				continue
+			}
+			nSam++
+			// specification straight from the records: insertions by reference position, deletions from the projection
+			var want []string
+			ins := map[int]int{}
+			for _, r := range g {
+				for _, in := range recordInsertions(r) {
+					ins[in.at] = len(in.seq)
+				}
+			}
+			for at, l := range ins {
+				want = append(want, fmt.Sprintf("ins:%d:%d", at, l))
+			}
+			var rows [][]byte
+			for _, r := range g {
+				rows = append(rows, projectRecord(r, len(ref)))
+			}
+			flat := flattenSpec(rows)
+			for p := 0; p < len(flat); {
+				if flat[p] != '-' {
+					p++
+					continue
+				}
+				q := p
+				for q < len(flat) && flat[q] == '-' {
+					q++
+				}
+				if p != 0 && q != len(flat) {
+					want = append(want, fmt.Sprintf("del:%d:%d", p+1, q-p))
+				}
+				p = q
+			}
+			if !sameSet(got.indels, want) {
+				badSam = append(badSam, fmt.Sprintf("%s on reference %s: rows %s / %s give %v, the records say %v", recString(g), ref, rr, qq, got.indels, want))
+			}
+			if len(badSam) > 10 {
+				break
+			}
+		}
+		c.Count("sam_groups_evaluated", nSam)
+		c.Ob("R1/sam-form/indels-of-record-groups", len(badSam) == 0, funcPos(c, "pkg/sam", "blockToSeqPair"), "%s", first(badSam, 3))
+	}
 	// gap code agreement
 	gapCodes := gapLiterals(c)
 	var badCodes []string
@@ -467,5 +653,54 @@ func C11(c *core.Ctx) {
 	}
 	c.Count("pairs_evaluated", n)
 	c.Ob("R1/workers-agree-on-every-pair", len(bad) == 0, samW.Pos(), "%s", first(bad, 3))
+	// several queries through ONE worker: no state may leak from one query to the next. The SAM worker gets pairs of
+	// equal width whose insertions sit at different reference positions; each result must equal the single-query result.
+	{
+		var badB []string
+		regions := sets[0]
+		batches := [][]pairCase{
+			{{"ATGCC-CAAATTA", "ATGCCGCAAATTA", ""}, {"ATGCCCAAA-TTA", "ATGCCCAAAGTTA", ""}, {"ATGCCCAAATTA-", "ATGCCCTAATTAG", ""}, {"ATG-CCCAAATTA", "ATGGCCCAAATTA", ""}},
+			{{"ATGCCCAAATTA", "ATGCCCAAATTA", ""}, {"ATGCCCAAATTA", "ATG---AAATTA", ""}, {"ATGCCCAAATTA", "ATGCCTAAATTA", ""}},
+			{{"ATGCC--CAAATTA", "ATGCCGGCAAATTA", ""}, {"AT--GCCCAAATTA", "ATGGGCCCAAATTA", ""}},
+		}
+		for _, batch := range batches {
+			ungapped := strings.ReplaceAll(batch[0].ref, "-", "")
+			var regs, inter []eval.Value
+			for _, r := range regions {
+				regs = append(regs, mkRegion(c, r, ungapped))
+			}
+			for _, p := range intergenic(regions, len(ungapped)) {
+				inter = append(inter, eval.K(int64(p)))
+			}
+			var feed []eval.Value
+			for i, pc := range batch {
+				pair := absValue(pairT, "p", eval.K(0)).(*eval.StructVal)
+				pair.F["ref"] = bytesVal(pc.ref)
+				pair.F["query"] = bytesVal(pc.qry)
+				pair.F["refname"] = eval.S("ref")
+				pair.F["queryname"] = eval.S(fmt.Sprintf("q%d", i))
+				pair.F["idx"] = eval.K(int64(i))
+				feed = append(feed, pair)
+			}
+			ev := newEval(c)
+			out, errs := &eval.ChanVal{Name: "out"}, &eval.ChanVal{Name: "err"}
+			if _, err := ev.CallFunc(samW, eval.NewSlice(regs...), eval.NewSlice(inter...), &eval.ChanVal{Name: "in", Feed: feed}, out, errs); err != nil || len(out.Sent) != len(batch) {
+				badB = append(badB, fmt.Sprintf("batch undecided: %v (%d results, %d errors)", err, len(out.Sent), len(errs.Sent)))
+				continue
+			}
+			for i, pc := range batch {
+				single, err := evalVariantsPair(c, tabs, pc.ref, pc.qry, regions)
+				if err != nil {
+					badB = append(badB, err.Error())
+					continue
+				}
+				got, err := readAnno(out.Sent[i])
+				if err != nil || strings.Join(got.all, "|") != strings.Join(single.all, "|") {
+					badB = append(badB, fmt.Sprintf("query %d of a batch through one worker (ref row %s, query row %s): %v, alone it gives %v", i, pc.ref, pc.qry, got.all, single.all))
+				}
+			}
+		}
+		c.Ob("R1/sam-worker/no-state-between-queries", len(badB) == 0, samW.Pos(), "%s", first(badB, 3))
+	}
 	c11Structure(c)
 }
